@@ -229,6 +229,10 @@ def _cut_loop(it, node, frame, key, lc, kind, iterinfo=None):
 
 
 def _havoc_ghost(it, name, cur):
+    if isinstance(cur, bool):
+        return it.ctx.fresh("bool", name)
+    if isinstance(cur, int):
+        return it.ctx.fresh("int", name)
     if isinstance(cur, SV):
         return it.ctx.fresh(cur.kind, name)
     if isinstance(cur, SeqVal):
